@@ -196,7 +196,7 @@ Inductive phase :=
 | PhOff                 (* powered off / rebooting: the firmware runs next *)
 | PhFw (img : rev)      (* the firmware chainloaded kernel image img; the initramfs runs next *)
 | PhRun (k b : rev)     (* the initramfs mounted kernel k and base b; snapd may run operations *)
-| PhDead.               (* boot stopped for good: untrusted kernel without fallback, or grub stuck *)
+| PhDead.               (* boot stopped: untrusted kernel without fallback, or grub stuck (a power cycle retries) *)
 
 Inductive ev20 :=
 | EOp (o : op20)        (* snapd starts an operation (reads the state, plans the writes) *)
@@ -253,7 +253,6 @@ Definition step20 (fx g : bool) (m : mach) (e : ev20) : mach :=
              gk := gk m; gb := gb m;
              ak := if fin then [] else ak m; ab := if fin then [] else ab m |}
       end
-  | EReset, PhDead => m
   | EReset, _ => if g && in_window m then m else with_st m (st m) PhOff
   | EFirmware, PhOff =>
       let '(s', r) := firmware20 (st m) in
